@@ -457,6 +457,18 @@ func c16Dispatch() (int, []string) {
 		if rec.last != w {
 			errs = append(errs, fmt.Sprintf("program %d procedure %d (%s) reached handler %q", rg.Prog, rg.Proc, w, rec.last))
 		}
+		// truncated arguments: rejected with an error, and the handler is not run
+		void := (rg.Prog == nfstypes.NFS_PROGRAM && rg.Proc == 0) || (rg.Prog == nfstypes.MOUNT_PROGRAM && rg.Proc != 1 && rg.Proc != 3)
+		if !void {
+			for _, cut := range [][]byte{{}, {0, 0}, arg[:5], arg[:len(arg)-1]} {
+				rec.last = ""
+				_, err := rg.Handler(xdr.MakeReader(cut))
+				if err == nil || rec.last != "" {
+					errs = append(errs, fmt.Sprintf("%s with arguments truncated to %d bytes: error %v, handler run: %q", w, len(cut), err, rec.last))
+					break
+				}
+			}
+		}
 	}
 	for k, w := range want {
 		if !seen[k] {
